@@ -118,6 +118,14 @@ func resetEffects(p *Program, fn *ssa.Function, sn string, cover map[string]*fie
 				set(f, "store in "+funcShortName(fn), kind, in)
 				return
 			}
+			// a field of an element: f[i].g = …  (`isf := &x.f[id]; isf.vals = isf.vals[:0]` for the ids in use)
+			if fa, ok := x.Addr.(*ssa.FieldAddr); ok {
+				if ia, ok := fa.X.(*ssa.IndexAddr); ok {
+					if s, f, base, ok := loadedField(ia.X); ok && s == sn && root(base) == ssa.Value(recv) {
+						set(f, "fields of its elements re-assigned in "+funcShortName(fn), "zeroed", in)
+					}
+				}
+			}
 			// element store: f[i] = zero, in a loop over all of f
 			if ia, ok := x.Addr.(*ssa.IndexAddr); ok {
 				if s, f, base, ok := loadedField(ia.X); ok && s == sn && root(base) == ssa.Value(recv) {
@@ -806,6 +814,8 @@ func ruleR10() *Rule {
 						c.ok(key, c.fpos(nwcm), fq+" is assigned by newWithChunkMode before convert runs")
 					case resetExempt[fq] != "":
 						c.ok(key, c.fpos(t.reset), fq+" is exempt: "+resetExempt[fq])
+					case encodeScratchArray(p, t.name, st, i):
+						c.ok(key, c.fpos(t.reset), fq+" is a fixed-size byte array used as encoding scratch: every use slices it, and what is read from it was just put there by a binary.Put* call")
 					case func() bool { ok, _ := cleanAtUse(p, t.name, st, i); return ok }():
 						_, how := cleanAtUse(p, t.name, st, i)
 						c.ok(key, c.fpos(t.reset), fq+" is not re-initialised by Reset but is clean at use: "+how)
@@ -1203,6 +1213,76 @@ func onlyInspected(v ssa.Value, depth int) bool {
 			}
 		default:
 			return false
+		}
+	}
+	return true
+}
+
+// encodeScratchArray: field fi of struct sn is a [N]byte whose only uses are slices of it; in every function
+// that uses it, a slice of it is handed to an encoding/binary Put* routine, and every other use there comes
+// after (is dominated by) such a call.
+func encodeScratchArray(p *Program, sn string, st *types.Struct, fi int) bool {
+	at, ok := st.Field(fi).Type().Underlying().(*types.Array)
+	if !ok {
+		return false
+	}
+	if bt, ok := at.Elem().Underlying().(*types.Basic); !ok || bt.Kind() != types.Uint8 {
+		return false
+	}
+	accs := fieldAddrsOf(p, sn, fi)
+	if len(accs) == 0 {
+		return false
+	}
+	byFn := map[*ssa.Function][]*ssa.Slice{}
+	for _, fa := range accs {
+		for _, r := range *fa.Referrers() {
+			switch x := r.(type) {
+			case *ssa.DebugRef:
+			case *ssa.Slice:
+				byFn[fa.Parent()] = append(byFn[fa.Parent()], x)
+			default:
+				return false
+			}
+		}
+	}
+	for _, sls := range byFn {
+		var puts []ssa.Instruction
+		for _, sl := range sls {
+			for _, r := range *sl.Referrers() {
+				if cs, ok := r.(ssa.CallInstruction); ok {
+					if f := staticCallee(cs); f != nil && f.Pkg != nil && f.Pkg.Pkg.Path() == "encoding/binary" && strings.HasPrefix(f.Name(), "Put") {
+						puts = append(puts, r)
+					}
+				}
+			}
+		}
+		if len(puts) == 0 {
+			return false
+		}
+		for _, sl := range sls {
+			for _, r := range *sl.Referrers() {
+				isPut := false
+				for _, pu := range puts {
+					if pu == r {
+						isPut = true
+					}
+				}
+				if isPut {
+					continue
+				}
+				if _, isDbg := r.(*ssa.DebugRef); isDbg {
+					continue
+				}
+				dominated := false
+				for _, pu := range puts {
+					if pu.Block() == r.Block() || pu.Block().Dominates(r.Block()) {
+						dominated = true
+					}
+				}
+				if !dominated {
+					return false
+				}
+			}
 		}
 	}
 	return true
